@@ -971,6 +971,10 @@ class Lattice:
             if min_i < 0:
                 # we use numpy indexing to simply wrap around negative indices
                 shape[0] += (abs(min_i) - 1) * self.N_rings // self.N_sites + 1
+            # The above assumes that `x_0` grows with the MPS index `i` as ``i * N_rings // N_sites``.
+            # For a general `order`, make sure that all `x_0` fit (negative ones wrap around).
+            x0 = lat_inds_ax[:, 0]
+            shape[0] = max(shape[0], max(self.shape[0], np.max(x0) + 1) + max(0, -np.min(x0)))
             if not include_u_ax:
                 shape = shape[:-1]
                 lat_inds_ax = lat_inds_ax[:, :-1]
